@@ -9,7 +9,10 @@ use std::{
 	collections::BTreeMap,
 	os::unix::fs::FileExt,
 	path::{Path, PathBuf},
-	sync::Mutex,
+	sync::{
+		atomic::{AtomicBool, AtomicU64, Ordering},
+		Mutex,
+	},
 };
 
 pub struct Tracker {
@@ -23,7 +26,42 @@ pub struct Tracker {
 	pub msyncs: u64,
 	pub fsyncs: u64,
 	pub check_i2: bool,
+	/// threaded mode: power-loss images are taken inside the hooks
+	pub snap: Option<SnapCfg>,
+	pub snaps: Vec<SnapMeta>,
+	pub eligible: u64,
 }
+
+/// Threaded mode (real worker threads): at every log sync and every log truncate / unlink a
+/// power-loss image is built right inside the hook, under the tracker lock, from the durable
+/// copies (plus a generated subset of the dirty table pages).
+#[derive(Clone, Debug)]
+pub struct SnapCfg {
+	pub dir: PathBuf,
+	pub max: usize,
+	/// take every stride-th eligible event
+	pub stride: u64,
+	pub seed: u64,
+}
+
+#[derive(Clone, Debug)]
+pub struct SnapMeta {
+	pub seq: usize,
+	pub what: String,
+	/// number of commit calls started when the image was taken (upper bound of its prefix)
+	pub issued: u64,
+	pub dir: PathBuf,
+	pub kept_pages: u64,
+	pub dropped_pages: u64,
+}
+
+/// Number of commit calls the client has started (threaded mode).
+pub static ISSUED: AtomicU64 = AtomicU64::new(0);
+/// Threaded mode: the durable copy of an msync range is taken BEFORE the real msync (content
+/// at call time is what the call guarantees; whatever a concurrent thread writes during the
+/// call is not), and the call is slowed down by this many microseconds ("slow disk").
+pub static THREADED: AtomicBool = AtomicBool::new(false);
+pub static MSYNC_DELAY_US: AtomicU64 = AtomicU64::new(0);
 
 pub static TRACKER: Mutex<Option<Tracker>> = Mutex::new(None);
 
@@ -35,7 +73,8 @@ fn guarded(f: impl FnOnce(&mut Tracker)) {
 	if IN_HOOK.with(|h| h.replace(true)) {
 		return
 	}
-	if let Ok(mut g) = TRACKER.try_lock() {
+	{
+		let mut g = TRACKER.lock().unwrap_or_else(|e| e.into_inner());
 		if let Some(t) = g.as_mut() {
 			f(t);
 		}
@@ -47,13 +86,30 @@ pub fn start(root: &Path, shadow: &Path, check_i2: bool) {
 	let _ = std::fs::remove_dir_all(shadow);
 	let _ = std::fs::create_dir_all(shadow);
 	IN_HOOK.with(|h| h.set(true));
-	*TRACKER.lock().unwrap() = Some(Tracker { root: root.to_path_buf(), shadow: shadow.to_path_buf(), maps: BTreeMap::new(), violations: vec![], events: 0, msyncs: 0, fsyncs: 0, check_i2 });
+	*TRACKER.lock().unwrap_or_else(|e| e.into_inner()) =
+		Some(Tracker { root: root.to_path_buf(), shadow: shadow.to_path_buf(), maps: BTreeMap::new(), violations: vec![], events: 0, msyncs: 0, fsyncs: 0, check_i2, snap: None, snaps: vec![], eligible: 0 });
 	IN_HOOK.with(|h| h.set(false));
 }
 
-pub fn stop() -> Option<Tracker> {
+/// Threaded mode: see `SnapCfg`.
+pub fn start_threaded(root: &Path, shadow: &Path, snap: SnapCfg, msync_delay_us: u64) {
+	start(root, shadow, false);
 	IN_HOOK.with(|h| h.set(true));
-	let t = TRACKER.lock().unwrap().take();
+	if let Some(t) = TRACKER.lock().unwrap_or_else(|e| e.into_inner()).as_mut() {
+		let _ = std::fs::create_dir_all(&snap.dir);
+		t.snap = Some(snap);
+	}
+	IN_HOOK.with(|h| h.set(false));
+	ISSUED.store(0, Ordering::SeqCst);
+	MSYNC_DELAY_US.store(msync_delay_us, Ordering::SeqCst);
+	THREADED.store(true, Ordering::SeqCst);
+}
+
+pub fn stop() -> Option<Tracker> {
+	THREADED.store(false, Ordering::SeqCst);
+	MSYNC_DELAY_US.store(0, Ordering::SeqCst);
+	IN_HOOK.with(|h| h.set(true));
+	let t = TRACKER.lock().unwrap_or_else(|e| e.into_inner()).take();
 	IN_HOOK.with(|h| h.set(false));
 	t
 }
@@ -79,6 +135,26 @@ fn fd_name(t: &Tracker, fd: i32) -> Option<String> {
 	}
 }
 
+fn take_snapshot(t: &mut Tracker, what: &str) {
+	let cfg = match &t.snap {
+		Some(c) => c.clone(),
+		None => return,
+	};
+	t.eligible += 1;
+	if t.snaps.len() >= cfg.max || t.eligible % cfg.stride.max(1) != 0 {
+		return
+	}
+	let seq = t.snaps.len();
+	let dir = cfg.dir.join(format!("snap{seq}"));
+	let seed = crate::spec::splitmix(cfg.seed ^ (seq as u64) << 20);
+	// mode 0: none of the dirty pages; otherwise a generated subset
+	let mode = if seed % 3 == 0 { 0 } else { 2 };
+	let issued = ISSUED.load(Ordering::SeqCst);
+	if let Ok((kept, dropped, _)) = crate::props::c12::build_power_image(&t.root, &t.shadow, &dir, seed, mode, true) {
+		t.snaps.push(SnapMeta { seq, what: what.to_string(), issued, dir, kept_pages: kept, dropped_pages: dropped });
+	}
+}
+
 fn sync_whole(t: &mut Tracker, name: &str) {
 	let _ = copy_file_sparse(&t.root.join(name), &t.shadow.join(name));
 }
@@ -100,6 +176,9 @@ pub fn on_fsync(fd: i32) {
 			t.events += 1;
 			t.fsyncs += 1;
 			sync_whole(t, &name);
+			if is_log(&name) {
+				take_snapshot(t, &format!("sync of {name}"));
+			}
 		}
 	});
 }
@@ -179,6 +258,9 @@ pub fn on_ftruncate(fd: i32, len: i64) {
 			if let Ok(f) = std::fs::OpenOptions::new().write(true).create(true).open(&p) {
 				let _ = f.set_len(len.max(0) as u64);
 			}
+			if is_log(&name) && len == 0 {
+				take_snapshot(t, &format!("truncate of {name}"));
+			}
 		}
 	});
 }
@@ -194,6 +276,9 @@ pub fn on_unlink(path: &Path) {
 					}
 				}
 				let _ = std::fs::remove_file(t.shadow.join(&name));
+				if is_log(&name) {
+					take_snapshot(t, &format!("unlink of {name}"));
+				}
 			}
 		}
 	});
